@@ -45,6 +45,7 @@ CONSTANTS
 Uint64Max == "18446744073709551615"
 TwoTo64   == "18446744073709551616"
 Int64Max  == "9223372036854775807"
+TwoTo256  == "115792089237316195423570985008687907853269984665640564039457584007913129639936"
 One18     == BigPow10(18)
 
 ---------------------------------------------------------------------------
@@ -172,6 +173,10 @@ ArgsOfState(s, h) ==
      denominator |-> s.params.denominator, minGasPrice |-> s.params.minGasPrice,
      noBaseFee |-> s.params.noBaseFee, enableHeight |-> s.params.enableHeight, height |-> h]
 
+\* the base fee is stored in a 256-bit integer: the statement is about fees that can be stored
+Storable(a) == \E v \in PAllowed(a.base, a.g, ATarget(a), a.denominator, a.minGasPrice) : BigLT(v, TwoTo256)
+BeginSpeaks(a) == CalcSpeaks(a) /\ Storable(a)
+
 EndBlockInDomain(s, used) == PGasDomain(s.tgw) /\ PGasDomain(used)
 
 StepOK(e, s, t) ==
@@ -179,7 +184,7 @@ StepOK(e, s, t) ==
             \* the base fee of block h is the function of the previous base fee and the previous
             \* block's gas figure; where the statement is silent anything (even a panic) goes
             LET a == ArgsOfState(s, e.args.height) IN
-            CalcSpeaks(a) => (e.ok /\ CalcOK(a, Val(t.baseFee)))
+            BeginSpeaks(a) => (e.ok /\ CalcOK(a, Val(t.baseFee)))
       [] e.ev = "ante" ->
             IF ~e.ok THEN t = s
             ELSE (PEnabled(s.params, s.height) /\ PGasDomain(BigAdd(s.tgw, e.args.gas))) =>
@@ -197,11 +202,13 @@ StepOK(e, s, t) ==
 \* once at or above the min gas price the base fee stays at or above its integer part
 \* (consequence of StepOK, evaluated separately)
 FloorKept(e, s, t) ==
-    (e.ev = "begin_block" /\ e.ok /\ CalcSpeaks(ArgsOfState(s, e.args.height))
+    (e.ev = "begin_block" /\ e.ok /\ BeginSpeaks(ArgsOfState(s, e.args.height))
        /\ GeDec(s.baseFee, s.params.minGasPrice)) => BigLE(DecFloor(s.params.minGasPrice), t.baseFee)
 
 StepClass(e, s) ==
-    CASE e.ev = "begin_block" -> CalcClass(ArgsOfState(s, e.args.height))
+    CASE e.ev = "begin_block" ->
+            LET a == ArgsOfState(s, e.args.height) IN
+            IF CalcSpeaks(a) /\ ~Storable(a) THEN "silent:base-fee>=2^256" ELSE CalcClass(a)
       [] e.ev = "end_block" ->
             IF ~PEnabled(s.params, s.height) THEN "silent:disabled"
             ELSE IF ~EndBlockInDomain(s, e.args.used) THEN "silent:gas>int64"
@@ -231,7 +238,8 @@ MResult(s, ev, args) ==
             \* feemarket BeginBlock: CalculateBaseFee, SetBaseFee unless nil
             LET r == CodeCalc(ArgsOfState(s, args.height))
                 opened == [s EXCEPT !.height = args.height, !.phase = "open", !.blkMaxGas = s.maxGas]
-            IN CASE r.out = "panic" -> [ok |-> FALSE, post |-> opened]
+            \* sdk.NewIntFromBigInt panics beyond 256 bits
+            IN CASE r.out = "panic" \/ (r.out = "value" /\ BigLE(TwoTo256, r.fee)) -> [ok |-> FALSE, post |-> opened]
                  [] r.out = "nil"   -> [ok |-> TRUE,  post |-> opened]
                  [] OTHER           -> [ok |-> TRUE,  post |-> [opened EXCEPT !.baseFee = r.fee]]
       [] ev = "ante" ->
